@@ -7,6 +7,22 @@ TS = r'chaiscript::detail::threading::Thread_Storage<chaiscript::detail::Stack_H
 NOINLINE = [TS, r'std::unordered_map<.*>::(operator\[\]|erase|unordered_map|~unordered_map)', r'chaiscript::detail::Stack_Holder::']
 FAM = Family('threads', 'threads.cpp', noinline=NOINLINE)
 
+def thread_cache_harness():
+    """K2: per-thread conversion caches are per engine (real Type_Conversions::thread_cache on two engines / two threads)"""
+    import re
+    from props.engine_family import FAM as ENG
+    TC = r'chaiscript::Type_Conversions::'
+    rx = TC + r'thread_cache\(\)'
+    stubs = [r'std::_Rb_tree<.*>::(_M_|operator=|find)', r'std::__detail::_Map_base<.*>::operator\[\]']
+    g, info = core.translate(ENG, [rx], stubs, tag='K2_probe')
+    ext = [e.split('|')[0].strip() for e in info['ext']]
+    def opt(pat, dflt):
+        ms = [e for e in ext if re.search(pat, e)]
+        return ('F_' + core.cname(ms[0])) if ms else dflt
+    d = {'E_CACHE': core.csym(ENG, rx), 'CACHE_SLOT': opt(r'_Map_baseImSt4pairIKmSt3setIPKSt9type_info', 'unused_cache_slot'), 'TREE_ASSIGN': opt(r'^_ZNSt8_Rb_treeIPKSt9type_info\w+aSERKS9_$', 'unused_tree_assign')}
+    return Harness('K2.thread_cache(per engine, per thread)', ENG, [rx], 'c14_thread_cache.c', stubs=stubs, shapes=[dict(d, _tag='two engines on one thread, one engine on two threads', _witness=('witness: four lookups',))],
+                   opts=['--unwind', '4'], timeout=120, mem_gb=4, inputs=['keyA', 'keyB'], note='keys of the two storage objects symbolic and different; caches up to date (no refresh); thread-local map lookup is a stub handing out one slot per (thread, key value)')
+
 def harnesses(tier):
     g, info = core.translate(FAM, [TS], [r'std::unordered_map<.*>::(operator\[\]|erase)'], tag='K_storage', cuts=[r'std::unordered_map<.*>::(unordered_map|~unordered_map)'])
     txt = core.fread(g)
@@ -26,9 +42,11 @@ def harnesses(tier):
     if not ix or len(er) != 1: raise core.BuildError('Thread_Storage no longer keeps its state in a std::unordered_map: C14 harness does not apply')
     d['UMAP_INDEX'] = 'F_' + core.cname(ix[0][0]); d['UMAP_ERASE'] = 'F_' + core.cname(er[0][0])
     if len(ix) > 1: d['UMAP_INDEX2'] = 'F_' + core.cname(ix[1][0])
-    return [Harness('K.Thread_Storage', FAM, [TS], 'c14_storage.c', stubs=[r'std::unordered_map<.*>::(operator\[\]|erase)'], cuts=[r'std::unordered_map<.*>::(unordered_map|~unordered_map)'],
+    hs = [Harness('K.Thread_Storage', FAM, [TS], 'c14_storage.c', stubs=[r'std::unordered_map<.*>::(operator\[\]|erase)'], cuts=[r'std::unordered_map<.*>::(unordered_map|~unordered_map)'],
                     shapes=[dict(d, WHICH=w, _tag='create-use(%s)-destroy-create at one address' % n, _witness=('witness: history explored',)) for w, n in enumerate(['operator*', 'operator->', 'operator* const', 'operator-> const'])] + ([dict(d, WHICH=0, TWO_THREADS=1, _tag='two engines constructed on two threads, used from one', _witness=('witness: two threads explored',))] if 'TS_CTOR' in d else []), opts=['--unwind', '4'], timeout=120, mem_gb=4,
                     inputs=['c0', 'between', 'which'], note='counter start and number of constructions in between: symbolic; second object at the address of the first')]
+    hs.append(thread_cache_harness())
+    return hs
 
 ASSUMPTIONS = ['the per-thread std::unordered_map is a recorder: that two different keys do not alias is libstdc++\'s business', 'the key counter does not wrap (2^64 constructions)',
                'threads are modelled as two copies of every thread_local object with the harness switching between them between calls (no interleaving inside a call)']
